@@ -74,6 +74,7 @@ package lifecycle
 //verif:call[publish-after-goroutines-registered] csync.(*Map).Set requires arg2 == rp && called("tomb.(*Tomb).Go") && count("builtin.close") >= 1 && called("(*Mutex).Lock@publishMu") && !called("(*Mutex).Unlock@publishMu")
 //verif:call[publish-before-status] PipelineService.UpdateStatus requires called("csync.(*Map).Set") && arg2 == StatusRunning && count("builtin.close") == 1
 //verif:call[cleanup-released-only-after-the-running-status-write-returned] builtin.close requires count("builtin.close") == 0 && !called("csync.(*Map).Set") || count("builtin.close") == 1 && called("csync.(*Map).Set") && called("PipelineService.UpdateStatus")
+//verif:ensures[a-failed-start-leaves-no-live-run] err != nil && called("csync.(*Map).Set") ==> called("tomb.(*Tomb).Kill") && called("(*Service).deleteRunningPipelineIfCurrent")
 //verif:ensures[startup-signalled-on-every-path-after-publication] called("csync.(*Map).Set") ==> count("builtin.close") == 2
 
 // C11: compare-and-delete under the publication lock: a finished run's cleanup removes
